@@ -93,7 +93,7 @@ Fixpoint ev_bytes (l : list event) : nat :=
 (* rfbReadExactTimeout(cl, buf, n, tmo).  A request for more bytes than the peer will ever send
    behaves like a request for one byte more than that (the count is capped only to keep the model
    computable: lengths go up to 2^31). *)
-Definition read_exact (tmo : Z) (n : Z) (r : reader) : rd_out :=
+Definition read_exact_ref (tmo : Z) (n : Z) (r : reader) : rd_out :=
   if n <=? 0 then mkRdOut (ROk []) r []
   else if r_dead r then mkRdOut RErr r []
   else
@@ -104,6 +104,28 @@ Definition read_exact (tmo : Z) (n : Z) (r : reader) : rd_out :=
     else if r_eof r then mkRdOut RGone (mkReader [] (r_evs r) true (r_reset r) (r_stalled r) false) []
     else if r_reset r then mkRdOut RErr (mkReader [] (r_evs r) false true (r_stalled r) false) []
     else rd_loop tmo (r_evs r) (need - length (r_avail r)) (r_avail r) 0 (r_stalled r) [].
+
+(* the same function, arranged so that the common case (the bytes are already in the socket buffer)
+   costs O(n) instead of O(buffer): this is the one the handlers and the extracted driver use;
+   [read_exact_eq] in C2SProofs.v shows the two are equal *)
+Fixpoint take_z (n : Z) (l : list Z) : option (list Z * list Z) :=
+  match l with
+  | [] => if n =? 0 then Some ([], []) else None
+  | b :: r => if n =? 0 then Some ([], l)
+              else match take_z (n - 1) r with Some (h, t) => Some (b :: h, t) | None => None end
+  end.
+
+Definition read_exact (tmo : Z) (n : Z) (r : reader) : rd_out :=
+  if n <=? 0 then mkRdOut (ROk []) r []
+  else if r_dead r then mkRdOut RErr r []
+  else match take_z n (r_avail r) with
+       | Some (h, t) => mkRdOut (ROk h) (mkReader t (r_evs r) (r_eof r) (r_reset r) (r_stalled r) false) []
+       | None =>
+           let need := Z.to_nat (Z.min n (Z.of_nat (S (length (r_avail r) + ev_bytes (r_evs r))))) in
+           if r_eof r then mkRdOut RGone (mkReader [] (r_evs r) true (r_reset r) (r_stalled r) false) []
+           else if r_reset r then mkRdOut RErr (mkReader [] (r_evs r) false true (r_stalled r) false) []
+           else rd_loop tmo (r_evs r) (need - length (r_avail r)) (r_avail r) 0 (r_stalled r) []
+       end.
 
 (* what the event loop does between two rfbProcessEvents calls when the socket buffer is empty:
    time passes (pauses are skipped, outside any wait) until the next segment / eof / reset *)
